@@ -102,4 +102,71 @@ theorem tri_indices_in_range (nv : Nat) (tris : List Tri) (idx : List Nat) (hasc
 
 example : deleteVerts 5 [⟨0, 1, 2⟩, ⟨2, 3, 4⟩, ⟨0, 2, 4⟩] [1, 3] = ([0, 2, 4], [⟨0, 1, 2⟩], [0, 1]) := by decide
 
+/-! ### skin weights (`NiSkinData::notifyVerticesDelete`) -/
+
+theorem filterMap_congr' {α γ : Type _} (f g : α → Option γ) (l : List α) (h : ∀ a ∈ l, f a = g a) :
+    l.filterMap f = l.filterMap g := by
+  induction l with
+  | nil => rfl
+  | cons a l ih =>
+    rw [List.filterMap_cons, List.filterMap_cons, h a (by simp), ih (fun b hb => h b (by simp [hb]))]
+
+theorem asc_le_getLast (idx : List Nat) (hi : Nat) (hasc : Asc idx) (hl : idx.getLast? = some hi) :
+    hi ∈ idx ∧ ∀ i ∈ idx, i ≤ hi := by
+  induction idx with
+  | nil => simp at hl
+  | cons a l ih =>
+    cases l with
+    | nil =>
+      simp only [List.getLast?_singleton, Option.some.injEq] at hl
+      subst hl
+      simp
+    | cons b l =>
+      rw [List.getLast?_cons_cons] at hl
+      have hasc' : Asc (b :: l) := (List.pairwise_cons.1 hasc).2
+      obtain ⟨h1, h2⟩ := ih hasc' hl
+      refine ⟨List.mem_cons_of_mem _ h1, ?_⟩
+      intro i hi'
+      rcases List.mem_cons.1 hi' with rfl | hi'
+      · have := (List.pairwise_cons.1 hasc).1 hi h1
+        omega
+      · exact h2 i hi'
+
+/-- **`NiSkinData::notifyVerticesDelete` on one bone's weight list**: exactly the entries of deleted vertices are
+dropped, every other entry keeps its weight and is re-indexed to the rank of its vertex among the survivors. -/
+theorem deleteWeights_spec (w : List (Nat × β)) (idx : List Nat) (hasc : Asc idx) :
+    deleteWeights w idx = w.filterMap fun p => if p.1 ∈ idx then none else some (rank idx p.1, p.2) := by
+  unfold deleteWeights
+  cases hl : idx.getLast? with
+  | none =>
+    have : idx = [] := List.getLast?_eq_none_iff.1 hl
+    subst this
+    simp only
+    induction w with
+    | nil => rfl
+    | cons p w ih => simp [rank] at ih ⊢
+  | some hi =>
+    simp only
+    obtain ⟨hmem, hle⟩ := asc_le_getLast idx hi hasc hl
+    apply filterMap_congr'
+    intro p _
+    obtain ⟨v, x⟩ := p
+    simp only
+    by_cases hv : v > hi
+    · rw [if_pos hv]
+      have hn : v ∉ idx := fun h => by have := hle v h; omega
+      rw [if_neg hn]
+      have : idx.filter (· < v) = idx := by
+        apply List.filter_eq_self.2
+        intro i hi'
+        have := hle i hi'
+        simp; omega
+      simp [rank, this]
+    · rw [if_neg hv]
+      rw [collapse_eq_spec idx (hi + 1) hasc, collapseSpec_get idx (hi + 1) v (by omega)]
+      simp only
+      by_cases hm : v ∈ idx
+      · simp [hm]
+      · simp [hm]
+
 end Nifly.Mesh
